@@ -52,7 +52,7 @@ META = dict(
                  "user callbacks (predicates, datagen, actions) take no bobocep lock other than via "
                  "receiver.add_data (driven)"])
 
-ROLE_MULTI = {"engine": False, "dist-main": False, "dist-incoming": False, "dist-outgoing": False,
+ROLE_MULTI = {"engine": True, "dist-main": False, "dist-incoming": False, "dist-outgoing": False,
               "feeder": True, "pool-worker": True, "control": True, "observer": True}
 
 
@@ -573,7 +573,10 @@ class System:
             return go
         self.as_role("dist-main", self.dist.run, wait=False)
         self.wait_until(lambda: getattr(self.dist, "_running", True), "dist.run() did not start")
-        self.as_role("engine", loop(self.engine.update), wait=False)
+        # engine.update() is a public entry point: as many engine threads as the cycle to force needs (two when
+        # free-running: a second driver next to the engine loop)
+        for _ in range(max(2 if not targets else 1, sum(1 for f in targets if f["role"] == "engine"))):
+            self.as_role("engine", loop(self.engine.update), wait=False)
         self.as_role("feeder", loop(feeder), wait=False)
         self.as_role("feeder", loop(feeder), wait=False)
         self.as_role("dist-incoming", free(self.dist._tcp_incoming), wait=False)
@@ -869,8 +872,12 @@ def run(ctx, res):
             kinds = [k for k in kinds_run if all(k in facts[c]["kinds"] for c in cyc)] or [facts[cyc[0]]["kinds"][0]]
             case = dict(mode="force", kind=kinds[0],
                         cycle=[dict(role=c[0], multi=c[1], held=list(c[2]), req=c[3], site=facts[c]["site"]) for c in cyc])
-            r = _collect(_spawn(["--force", kinds[0], json.dumps(case["cycle"])], 40))
+            for attempt in range(3):        # the threads must all reach their parking places: retried when they do not
+                r = _collect(_spawn(["--force", kinds[0], json.dumps(case["cycle"])], 60))
+                if r.get("hung"):
+                    break
             res.extra["forced"] = r
+            res.extra["forcing_attempts"] = attempt + 1
             if r.get("hung"):
                 # described by what the threads are really blocked on (another cycle of the residue may strike
                 # before every thread has reached its parking place)
